@@ -42,32 +42,36 @@ ViewCases ==
 
 -----------------------------------------------------------------------------
 (* C02: damage applied to the images selected by Stride *)
-Sel == { i \in 1..Len(PSeq) : i % Stride = 0 }
+SelSeq == SelectSeq([i \in 1..Len(PSeq) |-> i], LAMBDA i : i % Stride = 0)
 PrevOf(i) == Img(((i * 5) % Len(PSeq)) + 1, ((i % Len(KSeq)) + 1))
-Trunc ==
-  UNION { LET b == Img(i, 1) IN
-          { [fam |-> "C02", kind |-> "bytes", bytes |-> Take(b, c), prev |-> PrevOf(i), class |-> "trunc_" \o LayoutClass(PSeq[i])]
-            : c \in 0..(Len(b) - 1) } : i \in Sel }
+\* every truncation of the selected images (sequences, not sets: no normalisation of big records)
+TruncOf(i) == LET b == Img(i, 1)  pv == PrevOf(i) IN
+  [c \in 1..Len(b) |-> [fam |-> "C02", kind |-> "bytes", bytes |-> Take(b, c - 1), prev |-> pv, class |-> "trunc_" \o LayoutClass(PSeq[i])]]
+Trunc == Flatten([k \in 1..Len(SelSeq) |-> TruncOf(SelSeq[k])])
 SetAt(b, pos, v) == [b EXCEPT ![pos] = v]
-Alphabet(v) == {0, 1, 15, 16, 128, 255, (v + 1) % 256, (v + 255) % 256}
-MutPositions(b, p) ==
-  LET n0 == 12 + 4 * Len(p.csrc) IN
-  { q \in ({1, 2, Len(b)} \cup (IF p.x THEN (n0 + 1)..(n0 + 16) ELSE {})) : q >= 1 /\ q <= Len(b) }
+AlphaSeq(v) == <<0, 1, 15, 16, 128, 255, (v + 1) % 256, (v + 255) % 256>>
+MutPosSeq(b, p) ==
+  LET n0 == 12 + 4 * Len(p.csrc)
+      cand == <<1, 2, Len(b)>> \o (IF p.x THEN [q \in 1..16 |-> n0 + q] ELSE <<>>) IN
+  SelectSeq(cand, LAMBDA q : q >= 1 /\ q <= Len(b))
 MutClass(pos, b, p) ==
   "mut_" \o (IF pos = 1 THEN "byte0" ELSE IF pos = Len(b) THEN "last" ELSE IF pos = 2 THEN "byte1"
              ELSE IF pos <= 16 + 4 * Len(p.csrc) THEN "exthdr" ELSE "extbody") \o "_" \o LayoutClass(p)
-MutCases ==
-  UNION { LET b == Img(i, ((i \div Stride) % Len(KSeq)) + 1)  pv == PrevOf(i) IN
-          { [fam |-> "C02", kind |-> "bytes", bytes |-> SetAt(b, pos, v), prev |-> pv, class |-> MutClass(pos, b, PSeq[i])]
-            : pos \in MutPositions(b, PSeq[i]), v \in Alphabet(b[1]) }
-        : i \in Sel }
-Pairs ==
-  { [fam |-> "C02", kind |-> "bytes", bytes |-> Img(b, 1), prev |-> Img(a, ((a % Len(KSeq)) + 1)),
-     class |-> "pair_" \o LayoutClass(PSeq[a]) \o "_then_" \o LayoutClass(PSeq[b])]
-    : a \in { i \in 1..Len(PSeq) : i % (Stride * 4) = 1 }, b \in { i \in 1..Len(PSeq) : i % Stride = 2 } }
+MutOf(i) ==
+  LET b == Img(i, ((i \div Stride) % Len(KSeq)) + 1)  pv == PrevOf(i)  ps == MutPosSeq(b, PSeq[i])  al == AlphaSeq(b[1]) IN
+  [j \in 1..(Len(ps) * 8) |->
+     LET pos == ps[((j - 1) \div 8) + 1]  v == al[((j - 1) % 8) + 1] IN
+     [fam |-> "C02", kind |-> "bytes", bytes |-> SetAt(b, pos, v), prev |-> pv, class |-> MutClass(pos, b, PSeq[i])]]
+MutCases == Flatten([k \in 1..Len(SelSeq) |-> MutOf(SelSeq[k])])
+PairA == SelectSeq([i \in 1..Len(PSeq) |-> i], LAMBDA i : i % (Stride * 4) = 1)
+PairB == SelectSeq([i \in 1..Len(PSeq) |-> i], LAMBDA i : i % Stride = 2)
+Pairs == [j \in 1..(Len(PairA) * Len(PairB)) |->
+   LET a == PairA[((j - 1) \div Len(PairB)) + 1]  bb == PairB[((j - 1) % Len(PairB)) + 1] IN
+   [fam |-> "C02", kind |-> "bytes", bytes |-> Img(bb, 1), prev |-> Img(a, ((a % Len(KSeq)) + 1)),
+    class |-> "pair_" \o LayoutClass(PSeq[a]) \o "_then_" \o LayoutClass(PSeq[bb])]]
 
 Retag(c) == [c EXCEPT !.fam = Fam]
-Damage == LET s == SetToSeq(Trunc \cup MutCases \cup Pairs) IN [i \in 1..Len(s) |-> Retag(s[i])]
+Damage == LET s == Trunc \o MutCases \o Pairs IN [i \in 1..Len(s) |-> Retag(s[i])]
 Raw == IF Fam = "C03" THEN ImageSeq \o SetToSeq(ViewCases) \o Damage ELSE Damage
 CaseSeq == [i \in 1..Len(Raw) |-> Raw[i] @@ [case |-> i]]
 ASSUME WriteCases(CaseSeq) /\ PrintT(<<"CASES", Len(CaseSeq)>>)
